@@ -137,6 +137,13 @@ fn pool(r: &mut Rng, n: usize) -> Vec<String> {
             out.extend(c);
             continue;
         }
+        if r.chance(1, 6) {
+            let sweep = gv::length_sweep();
+            let mut c = gv::length_cluster(*r.pick(&sweep));
+            c.truncate(n - out.len());
+            out.extend(c);
+            continue;
+        }
         let seed = if r.chance(1, 3) { wild(r) } else { gv::v(r) };
         let k = r.range(4, 30).min(n - out.len());
         out.push(seed.clone());
